@@ -139,24 +139,25 @@ impl FormatStringParser<'_> {
     }
 
     fn peek(&self, count: usize) -> Result<&str, Box<dyn Error>> {
-        if self.string.len() < count {
-            return Err("Unexpected EOF".into());
-        }
-
-        Ok(&self.string[0..count])
+        // `count` is in bytes: fail (rather than panic) when it runs past the
+        // end or into the middle of a multi-byte character.
+        self.string
+            .get(0..count)
+            .ok_or_else(|| "Unexpected EOF".into())
     }
 
     fn advance_one(&mut self) -> Result<char, Box<dyn Error>> {
         let c = self.front()?;
-        self.string = &self.string[1..];
+        self.string = &self.string[c.len_utf8()..];
         Ok(c)
     }
 
     fn advance_by(&mut self, count: usize) -> Result<&str, Box<dyn Error>> {
-        self.peek(count)?;
-
-        let skipped = &self.string[0..count];
-        self.string = &self.string[count..];
+        let (skipped, rest) = self
+            .string
+            .split_at_checked(count)
+            .ok_or("Unexpected EOF")?;
+        self.string = rest;
         Ok(skipped)
     }
 
@@ -201,7 +202,7 @@ impl FormatStringParser<'_> {
         }
     }
 
-    fn parse_format_width(&mut self) -> Option<usize> {
+    fn parse_format_width(&mut self) -> Result<Option<usize>, Box<dyn Error>> {
         let start = self.string;
         let mut digits = 0;
 
@@ -212,11 +213,11 @@ impl FormatStringParser<'_> {
         }
 
         if digits > 0 {
-            // safe to unwrap: we already know all the digits are valid due to
-            // the above checks.
-            Some((start[0..digits]).parse().unwrap())
+            // All the digits are valid due to the above checks, but the number
+            // may still be too large for a width.
+            Ok(Some((start[0..digits]).parse()?))
         } else {
-            None
+            Ok(None)
         }
     }
 
@@ -252,7 +253,7 @@ impl FormatStringParser<'_> {
             self.advance_one().unwrap();
         }
 
-        let width = self.parse_format_width();
+        let width = self.parse_format_width()?;
 
         let first = self.advance_one()?;
         if first == '%' {
